@@ -561,7 +561,16 @@ def gen_e2e(rng: random.Random):
         args = [tree(depth - 1) if depth > 0 and rng.random() < 0.3 else rng.choice(E2E_LEAVES) for _ in range(n)]
         return ("call", name, style, args)
 
-    return tree(2), specs
+    t = tree(2)
+    if rng.random() < 0.3:
+        # a function that returns a COLLECTION: return_type is the ELEMENT type (which may itself be a vector); the result
+        # variable must be a std::vector of exactly that element type
+        el = rng.choice(["double", "float", "int", "std::vector<float>", "vector<double>", "std::vector<int>", "std::vector<std::vector<float>>"])
+        specs["Vfun"] = {"name": "Vfun", "includes": rng.sample(["a.h", "b.h"], rng.randint(0, 1)), "args": ["x"],
+                         "code": [f"std::vector<{el}> result;", f"if (x > 0) result.push_back({el}());"], "result": "result",
+                         "rtype": [el, 0, False], "is_coll": True, "method_obj": None, "count_result": True}
+        t = ("call", "Vfun", "func", [t])
+    return t, specs
 
 
 def builtin_cases():
